@@ -413,7 +413,18 @@ def run_property(pid: str, props_file: str, streams: list[Stream], tier: str, se
         obs_list, terms, term_idx = [], [], []
         oracle_hits = []
         for i, c in enumerate(cases):
-            obs = st.run_impl(c)
+            try:
+                obs = st.run_impl(c)
+            except Exception as exc:  # the implementation (or its driver) blew up on this case
+                import traceback
+                tb = traceback.format_exc().strip().splitlines()
+                where = next((l.strip() for l in reversed(tb) if "/src/frequenz/" in l), tb[-1] if tb else "")
+                obs = {"__crash__": f"{type(exc).__name__}: {exc}", "where": where}
+                obs_list.append(obs)
+                total_eval += 1
+                label_counts[f"{st.name}:crashed"] = label_counts.get(f"{st.name}:crashed", 0) + 1
+                oracle_hits.append((i, {"what": f"crash: running the case raised {type(exc).__name__}: {str(exc)[:200]} ({where})", "finding": None}))
+                continue
             obs_list.append(obs)
             total_eval += 1
             k = st.key(c, obs)
@@ -448,6 +459,19 @@ def run_property(pid: str, props_file: str, streams: list[Stream], tier: str, se
                     seen_known[fid] = (st.name, cases[i], obs_list[i], v["what"])
                 continue
             if reported >= 3:
+                continue
+            if v["what"].startswith("crash:"):
+                def crashes(cc):
+                    try:
+                        st.run_impl(cc)
+                    except Exception:
+                        return True
+                    return False
+                c = _shrink(st, cases[i], crashes, budget=60, keep_exceptions=True)
+                verdict_violations.append(({"property": pid, "kind": "crash", "stream": st.name, "case": c, "impl_obs": obs_list[i],
+                                            "what": v["what"], "seed": seed,
+                                            "how_to_replay": f"/venv/bin/python tools/check.py {pid} --replay <this file>"}, True))
+                reported += 1
                 continue
             c = _shrink(st, cases[i], lambda cc: any(x.get("finding") == fid and x["what"].split(":")[0] == v["what"].split(":")[0]
                                                      for x in st.oracle(cc, st.run_impl(cc))))
@@ -548,7 +572,7 @@ def run_property(pid: str, props_file: str, streams: list[Stream], tier: str, se
     return 0
 
 
-def _shrink(st: Stream, case, still_fails, budget=200):
+def _shrink(st: Stream, case, still_fails, budget=200, keep_exceptions=False):
     cur = case
     improved = True
     n = 0
